@@ -11,6 +11,12 @@ try:
     from checks.registry import NOT_APPLICABLE
 except ImportError:
     NOT_APPLICABLE = {}
+import glob
+import importlib
+for fn in sorted(glob.glob(os.path.join(HERE, "checks", "registry_*.py"))):
+    m = importlib.import_module("checks." + os.path.basename(fn)[:-3])
+    CHECKS.update(getattr(m, "CHECKS", {}))
+    NOT_APPLICABLE.update(getattr(m, "NOT_APPLICABLE", {}))
 
 props = [json.loads(l) for l in open(os.path.join(HERE, "properties.jsonl"))]
 checks = []
@@ -34,9 +40,9 @@ for p in props:
         na.append(dict(property_id=pid, reason=NOT_APPLICABLE.get(pid, "check not built yet in this round (planned: see DESIGN.md section 5)")))
 
 hooks_commits = []
-hc = os.path.join(HERE, "hooks_commits.txt")
-if os.path.exists(hc):
-    hooks_commits = [l.split()[0] for l in open(hc) if l.strip() and not l.startswith("#")]
+for hc in [os.path.join(HERE, "hooks_commits.txt")] + sorted(glob.glob(os.path.join(HERE, "hooks_commits.d", "*.txt"))):
+    if os.path.exists(hc):
+        hooks_commits += [l.split()[0] for l in open(hc) if l.strip() and not l.startswith("#")]
 
 m = dict(
     version=1,
